@@ -196,7 +196,15 @@ def check_C03(tier, seed):
                  sim_num=10 if q else 60, sim_depth=45 if q else 70, scales=[SCALE_BIG],
                  drv_runs=6 if q else 40, drv_steps=70 if q else 120,
                  drv_kwargs=dict(w_fault=2.5, w_close=0.25, w_restore=0.0, w_replay=1.0, max_pays=4))
-    extra = {"checker_cmd": "tlc MC_ZkAbacus (invariants CanClose HeldSigsValid ClosedOnUnrevoked; properties RefusedIsInert ReleaseOnlyOnAccept FaultRefused ReplayRefused) + Trace_ZkAbacus on harness traces"}
+    extra = {"checker_cmd": "tlc MC_ZkAbacus (invariants CanClose HeldSigsValid ClosedOnUnrevoked + dispute outcomes DisputeCustomerSafe DisputeWindow DisputePunishOld "
+                            "DisputeOutcomeConserves MerchantPayoffBound; properties RefusedIsInert ReleaseOnlyOnAccept FaultRefused ReplayRefused OutcomeOnlyByCustomer) "
+                            "+ Trace_ZkAbacus on harness traces (same invariants at every event)"}
+    # dispute outcomes: with an unsound pay proof (double spend) the merchant-side outcome statements must fail (non-vacuity)
+    for cfg, inv in (("MC_ZkAbacus_dispute_unsound.cfg", "DisputePunishOld"), ("MC_ZkAbacus_dispute_unsound2.cfg", "MerchantPayoffBound")):
+        r = tlc("MC_ZkAbacus", cfg, workers=2, name="mc_C03_dispute_mut")
+        if r["ok"] or r["violated"] != inv:
+            raise ToolError(f"ZkAbacus with ProofSound = FALSE does not violate {inv}: the dispute-outcome statements are vacuous")
+    extra["spec_mutants_must_fail"] = ["MC_ZkAbacus_dispute_unsound.cfg (DisputePunishOld)", "MC_ZkAbacus_dispute_unsound2.cfg (MerchantPayoffBound)"]
     if not q:
         cc = cover_campaign("C03", seed, "Trace_ZkAbacus_notwin.cfg", drop_restore=True)
         c["events"] += cc["events"]; c["classes"] |= cc["classes"]; c["runs"] += cc["runs"]; c["wall"] = c["wall"]
